@@ -451,7 +451,7 @@ package ship
 //@ func (c *ShipConnection).AbortPendingHandshake() entry [C04,C10]
 //@   requires !c.shutdownOnce.$done
 //@   ensures [C04] E3-step: stepOK(c.role, old(c.smeState), c.smeState)
-//@   ensures [C10] D3-abort: old(c.smeState) == model.SmeHelloStatePendingListen || old(c.smeState) == model.SmeHelloStateReadyListen ==> terminal(c.smeState)
+//@   ensures [C10,C01] D3-abort: old(c.smeState) == model.SmeHelloStatePendingListen || old(c.smeState) == model.SmeHelloStateReadyListen ==> terminal(c.smeState)
 //@   modifies @hs(c)
 //@ func (c *ShipConnection).ReportConnectionError(err) entry [C04,C13]
 //@   ensures [C04] E3-step: stepOK(c.role, old(c.smeState), c.smeState)
